@@ -84,6 +84,15 @@ impl<'a> Cursor<'a> {
         self.chars.clone().count()
     }
 
+    /// Returns the byte length, starting at `pos`, of as many characters as remain in the cursor.
+    pub(crate) fn remaining_len_from(&self, pos: usize) -> usize {
+        self.input[pos..]
+            .chars()
+            .take(self.remaining())
+            .map(char::len_utf8)
+            .sum()
+    }
+
     /// Peeks over the cursor as long as the condition is met, without consuming it.
     pub(crate) fn peek_while(&mut self, condition: impl Fn(char) -> bool) -> (usize, usize) {
         let peeker = self.chars.clone();
